@@ -191,13 +191,23 @@ class EvalAnalysis:
         return out
 
     def _y_train_terms(self):
+        """Terms that denote this fold's training window of y (``y.iloc[train]`` or the equivalent first..last slice)."""
+        if getattr(self, "_ytt", None) is not None:
+            return self._ytt
+        if getattr(self, "_ytt_busy", False):
+            return []
+        self._ytt_busy = True
         out = []
-        for e in self.events:
-            for a in list(e.args) + list(e.kwargs.values()):
-                for x in subterms(a):
-                    s = self.slice_of(x)
-                    if s is not None and s[0] == "y" and s[1] == self.TRAIN and x not in out:
-                        out.append(x)
+        try:
+            for e in self.events:
+                for a in list(e.args) + list(e.kwargs.values()):
+                    for x in subterms(a):
+                        s = self.slice_of(x)
+                        if s is not None and s[0] == "y" and x not in out and (s[1] == self.TRAIN or self.label(x) == "y[train]"):
+                            out.append(x)
+        finally:
+            self._ytt_busy = False
+        self._ytt = out
         return out
 
     def is_rel_fh(self, t):
@@ -258,6 +268,10 @@ class EvalAnalysis:
             if lo is None or hi is None:
                 return None
             return lo, hi
+        if is_call(idx, fn("builtins.slice")) and not idx.a[2] and 1 <= len(idx.a[1]) <= 2:
+            lo = self.lin(idx.a[1][0]) if len(idx.a[1]) == 2 else Lin.c(0)
+            hi = self.lin(idx.a[1][-1])
+            return None if lo is None or hi is None else (lo, hi)
         if isinstance(idx, T) and idx.op == "slice" and idx.a[2] is None:
             lo = Lin.c(0) if idx.a[0] is None else self.lin(idx.a[0])
             hi = self.lin(idx.a[1]) if idx.a[1] is not None else None
@@ -284,6 +298,10 @@ class EvalAnalysis:
                 return "%s[test]" % kind
             r = self.rows(idx)
             if r is not None:
+                # the training window is a run of consecutive positions (C01-R1 :contiguous), so first .. last is the window itself;
+                # the test positions are cutoff + fh and have gaps whenever the horizon has
+                if r[0] == Lin.sym("train[0]") and r[1] == Lin.sym("train[-1]") + 1:
+                    return "%s[train]" % kind
                 return "%s[rows %r .. %r)" % (kind, r[0], r[1])
             # the split positions shifted by a constant (train - 1, test + 1, ...)
             if isinstance(idx, T) and idx.op == "binop" and idx.a[0] in ("Add", "Sub"):
@@ -851,7 +869,7 @@ def check_evaluate(ctx, repo, out, x_given, callsig):
         out.check(scen, good, "R3", "evaluate:append:returned", "the returned table is the one the rows are appended to",
                   "the returned value does not derive from the table the rows are appended to", loc0)
     for ev in appends:
-        row = ev.args[0] if ev.args else None
+        row = as_row(ev.args[0]) if ev.args else None
         if not (isinstance(row, T) and row.op == "dict"):
             out.add(scen, "undecided", "R3", "evaluate:row", "appended row is not a dict display: %s" % show(row), L(ev))
             continue
@@ -960,6 +978,27 @@ def check_evaluate(ctx, repo, out, x_given, callsig):
     return A
 
 
+def as_row(t):
+    """Normal form of a row: a dict display, possibly extended by ``row[k] = v`` stores and joined over branches that write
+    the same keys (values joined per key)."""
+    from ._c07_prov import phi as _phi
+    if isinstance(t, T) and t.op == "setcol":
+        base_ = as_row(t.a[0])
+        if isinstance(base_, T) and base_.op == "dict":
+            items = [(k, v) for k, v in base_.a[0] if k != t.a[1]] + [(t.a[1], t.a[2])]
+            return T("dict", tuple(items))
+        return t
+    from ._c07_prov import arms as _arms, map_arms as _map_arms
+    if _arms(t) is not None:
+        rows = [as_row(x) for x in _arms(t)]
+        if all(isinstance(r_, T) and r_.op == "dict" for r_ in rows):
+            keys = [k for k, _ in rows[0].a[0]]
+            if all(sorted(map(repr, [k for k, _ in r_.a[0]])) == sorted(map(repr, keys)) for r_ in rows):
+                return T("dict", tuple((k, _map_arms(t, lambda x, k=k: dict(as_row(x).a[0])[k])) for k in keys))
+        return t
+    return t
+
+
 def strategy_domain(A, events):
     """Valuations (fold number n, strategy s, {term: value}) exhaustive for the atoms in the events' path conditions:
     fold numbers 0, 1, 2 and the neighbours of every integer constant compared against; both legal strategies."""
@@ -972,9 +1011,28 @@ def strategy_domain(A, events):
     ns = {0, 1, 2}
     for k in int_consts(pcs):
         ns.update(x for x in (k - 1, k, k + 1, k + 2) if x >= 0)
+    # loop-carried values in the conditions: a fold counter (constant start, incremented by exactly one on every path of an
+    # iteration) has the value start + n at the top of fold n; any other loop-carried value is not evaluable
+    counters = {}
+    for t in pcs:
+        for x in subterms(t):
+            if isinstance(x, T) and x.op == "carried" and x not in counters:
+                init = x.a[1]
+                ok = x.a[2] == A.loop.id and is_const(init) and isinstance(cval(init), int) and not isinstance(cval(init), bool) \
+                    and not A.loop.breaks and bool(A.loop.ends)
+                for st_ in (A.loop.ends if ok else []):
+                    endv = st_.env.get(x.a[0])
+                    if not (isinstance(endv, T) and endv.op == "binop" and endv.a[0] == "Add"
+                            and ((endv.a[1] == x and endv.a[2] == C(1)) or (endv.a[2] == x and endv.a[1] == C(1)))):
+                        ok = False
+                if not ok:
+                    raise Undef(x)
+                counters[x] = cval(init)
     for n in sorted(ns):
         for s in ("refit", "update"):
             val = {P("strategy"): s}
+            for x, c0 in counters.items():
+                val[x] = c0 + n
             for e in enums:
                 if not (is_const(e.a[1]) and isinstance(cval(e.a[1]), int)):
                     raise Undef(e)
